@@ -463,6 +463,23 @@ fn evaluate(cli: &Cli, report: &mut Report, cases: Vec<Case>) {
         let tb = trace(&b);
         let tv = trace(&v);
         let mut findings: Vec<(String, String, Value)> = vec![];
+        // A delay that keeps a Keep Alive echo back until the next Keep Alive is due changes what
+        // the client did by C07's measure (it left a Keep Alive unechoed): that outcome is C07's to
+        // judge, not a dependence on segmentation. Read off the client's own log only.
+        let long_pause = c.variant.client.seg.splits.iter().any(|(_, cuts)| cuts.iter().any(|(_, p)| *p >= Duration::from_secs(16)));
+        if long_pause {
+            let held_back = facts(&v).keep_alives.iter().any(|(id, t)| {
+                let echo = v.client.sent.iter().find(|s| s.label.starts_with("KeepAliveEcho") && matches!(Pkt::decode(vp_common::refcodec::Phase::Config, vp_common::refcodec::Dir::Serverbound, 0x04, &s.plain[2..]), Ok(Pkt::ConfKeepAliveIn { id: e }) if e == *id));
+                match echo {
+                    Some(s) => s.t_ns + 2 * MS >= *t + 16_000 * MS,
+                    None => true,
+                }
+            });
+            if held_back {
+                let sample = json!({"case": c.class, "not_compared": "the delay held a Keep Alive echo back past its deadline"});
+                return (c.class.clone(), sample, findings, v.net.read_polls, v.net.write_polls, true);
+            }
+        }
         if b.client.garbage.is_some() || b.client.incomplete_tail > 0 || !matches!(b.result, ServerResult::Ok | ServerResult::Err(..)) {
             findings.push((format!("baseline-broken/{}", c.shape), format!("the unsegmented baseline itself is broken ({})", b.result.kind()), witness(&c.base, &b, json!({}))));
         }
@@ -481,9 +498,14 @@ fn evaluate(cli: &Cli, report: &mut Report, cases: Vec<Case>) {
             ));
         }
         let sample = json!({"case": c.class, "trace": tv, "equal_to_baseline": tb == tv});
-        (c.class.clone(), sample, findings, v.net.read_polls, v.net.write_polls)
+        (c.class.clone(), sample, findings, v.net.read_polls, v.net.write_polls, false)
     });
-    for (i, (class, sample, findings, rp, wp)) in results.into_iter().enumerate() {
+    for (i, (class, sample, findings, rp, wp, not_compared)) in results.into_iter().enumerate() {
+        if not_compared {
+            report.eval(None);
+            report.count("cases not compared: the delay held a Keep Alive echo back past its deadline (C07 decides those)", 1);
+            continue;
+        }
         report.eval(Some(&class));
         if i % 499 == 0 {
             report.sample(sample);
